@@ -83,8 +83,12 @@ def linear_deform(template, displacement, interp='linear', out=None):
     templ_interpolator = per_axis_interpolator(
         template, coord_vecs=template.space.grid.coord_vectors, interp=interp
     )
-    values = templ_interpolator(points.T, out=out)
-    return values.reshape(template.space.shape)
+    values = templ_interpolator(points.T).reshape(template.space.shape)
+    if out is None:
+        return values
+    else:
+        out[...] = values
+        return out
 
 
 class LinDeformFixedTempl(Operator):
